@@ -23,7 +23,13 @@ abbrev V := Nat
 /-! ## printing -/
 
 def fmtEnt (e : K × V) : String := s!"{e.1}:{e.2}"
-def fmtAL (l : AL K V) : String := "[" ++ " ".intercalate (l.map fmtEnt) ++ "]"
+/-- lists longer than 96 entries are printed as `#<len>:<digest>` (same rule in harness/src/lib.rs `fmt_list`) -/
+def digestAL (l : AL K V) : String :=
+  let h := l.foldl (fun (h : Nat) (e : K × V) => (h * 1000003 + e.1 * 31 + e.2 + 1) % 18446744073709551616) 0
+  let hex := (Nat.toDigits 16 h)
+  s!"#{l.length}:" ++ String.ofList (List.replicate (16 - hex.length) '0' ++ hex)
+def fmtAL (l : AL K V) : String :=
+  if l.length > 96 then digestAL l else "[" ++ " ".intercalate (l.map fmtEnt) ++ "]"
 def fmtOptV : Option V → String
   | none => "none"
   | some v => s!"some {v}"
@@ -63,7 +69,7 @@ def insertSorted (x : Obj K V) : List (Obj K V) → List (Obj K V)
 def sortObjs (l : List (Obj K V)) : List (Obj K V) := l.foldr insertSorted []
 /-- drops are compared as a multiset: printed sorted -/
 def fmtDrops (l : List (Obj K V)) : String := "[" ++ " ".intercalate ((sortObjs l).map fmtObj) ++ "]"
-def fmtCbs (l : List (K × V)) : String := "[" ++ " ".intercalate (l.map fmtEnt) ++ "]"
+def fmtCbs (l : List (K × V)) : String := fmtAL l
 
 def hexDigit (n : Nat) : Char := if n < 10 then Char.ofNat (48 + n) else Char.ofNat (87 + n)
 def hexN (width : Nat) (n : Nat) : String :=
@@ -243,6 +249,7 @@ def stepRaw (c : RawLru K V) (op : String) (a : List Nat) (sargs : List String) 
     | .error f => .fault f
     | .ok (c', e) => done "()" c' e
   | "len", [] => done (toString c.len) c {}
+  | "innercaps", [] => done s!"caps={c.cap}" c {}
   | "cap", [] => done (toString c.cap) c {}
   | "isempty", [] => done (fmtBool c.isEmpty) c {}
   | "debug", [] => done "()" c {}
@@ -312,6 +319,7 @@ def stepSlru (s : Slru K V) (op : String) (a : List Nat) : Ans :=
     | .error f => .fault f
     | .ok (s', d) => done "()" s' d
   | "len", [] => done (toString s.len) s []
+  | "innercaps", [] => done s!"caps={s.prob.cap},{s.prot.cap}" s []
   | "cap", [] => done (toString s.cap) s []
   | "isempty", [] => done (fmtBool s.isEmpty) s []
   | "debug", [] => done "()" s []
@@ -358,6 +366,7 @@ def stepTwoQ (q : TwoQ K V) (op : String) (a : List Nat) (sargs : List String) :
     | .error f => .fault f
     | .ok (q', d) => done "()" q' d
   | "len", [] => done (toString q.len) q []
+  | "innercaps", [] => done s!"caps={q.recent.cap},{q.frequent.cap},{q.ghost.cap}" q []
   | "cap", [] => done (toString q.cap) q []
   | "isempty", [] => done (fmtBool q.isEmpty) q []
   | "debug", [] => done "()" q []
@@ -406,6 +415,7 @@ def stepArc (c : Arc K V) (op : String) (a : List Nat) (sargs : List String) : A
     | .error f => .fault f
     | .ok (c', d) => done "()" c' d
   | "len", [] => done (toString c.len) c []
+  | "innercaps", [] => done s!"caps={c.recent.cap},{c.frequent.cap},{c.recentEvict.cap},{c.frequentEvict.cap}" c []
   | "cap", [] => done (toString c.cap) c []
   | "isempty", [] => done (fmtBool c.isEmpty) c []
   | "debug", [] => done "()" c []
@@ -458,6 +468,7 @@ def stepWT (c : WTinyLfu K V) (kh : K → UInt64) (op : String) (a : List Nat) :
     | .error f => .fault f
     | .ok (c', d) => done "()" c' d
   | "len", [] => done (toString c.len) c []
+  | "innercaps", [] => done s!"caps={c.window.cap},{c.main.prob.cap},{c.main.prot.cap}" c []
   | "cap", [] => done (toString c.cap) c []
   | "isempty", [] => done (fmtBool c.isEmpty) c []
   | "debug", [] => done "()" c []
